@@ -145,6 +145,12 @@ func (r *Run) tryReplay(o *Obligation, rf *ReplayFile) {
 		rf.Note = "no replay template for " + o.Func + "; solver output attached"
 		return
 	}
+	// `//govc:pkgdir <dir>`: run the replay as a test of another package (one that has the needed harness)
+	for _, line := range strings.Split(string(tb), "\n") {
+		if strings.HasPrefix(line, "//govc:pkgdir ") {
+			rf.PkgDir = strings.TrimSpace(strings.TrimPrefix(line, "//govc:pkgdir "))
+		}
+	}
 	// a template that needs no model values (it replays a fixed history) can run even without a model
 	data := map[string]any{"Obligation": o.Name, "Class": o.Class, "Package": o.fc.pkg.Name}
 	inputs := map[string]string{}
